@@ -284,7 +284,16 @@ class C03(Check):
                 continue
             out.probe("swept-running-framer")
             own_entered = [k for k in entered.get(t, []) if k[0] == t]
-            want = [k for k in reversed(own_entered) if _has(asts[t], k[1], "exit")]
+            # bottom-up by the frame hierarchy of the script (not by the order in which the frames happened to be entered)
+            depth = {}
+            for f in asts[t]["frames"]:
+                d, o = 0, f.get("over")
+                overs = dict((x["name"], x.get("over")) for x in asts[t]["frames"])
+                while o:
+                    d += 1
+                    o = overs.get(o)
+                depth[f["name"]] = d
+            want = [k for k in sorted(own_entered, key=lambda k: -depth.get(k[1], 0)) if _has(asts[t], k[1], "exit")]
             got_own = [k for k in exits.get(t, []) if k[0] == t]
             if got_own != want:
                 return bad("exits", "a swept running framer did not exit its entered frames bottom-up",
@@ -302,7 +311,12 @@ class C03(Check):
                 out.probe("swept-nested")
 
     def directed(self):
-        return []
+        # a framer with a nested outline that is stopped and started again by another framer: cuts in its second life
+        import json
+        import os
+        from simkit.core import uncanon
+        d = os.path.join(os.path.dirname(os.path.abspath(__file__)), "directed")
+        return [uncanon(json.load(open(os.path.join(d, "flo-stop-then-restart-nested.json"))))]
 
 
 def _has(fr_ast, frame, ctx):
